@@ -207,12 +207,20 @@ Reason(gr, r) ==
            [] r.kind = "getart" -> "no-producer"
            [] OTHER -> "other"
 
-\* the application state after the request (sn = the graph last fetched with GET /graph)
-Effect(gr, sn, r) ==
+\* the application state after the request (sn = the graph last fetched with GET /graph).  Which id a new node
+\* gets is not part of the contract (only that it is fresh and named in the answer): EffectK creates it as k;
+\* the generators use GraphEdit's allocation rule NewId, the judges the id the answer names.
+CreateAs(gr, t, k) ==
+    [gr EXCEPT !.ids = @ \cup {k}, !.type = Ext(@, k, t), !.name = Ext(@, k, 0), !.desc = Ext(@, k, 0),
+               !.val = Ext(@, k, 0), !.single = Ext(@, k, NoSingle), !.arr = Ext(@, k, <<>>)]
+EffectK(gr, sn, r, k) ==
     IF Class(gr, r) # "valid" THEN gr
+    ELSE IF r.kind = "create" THEN CreateAs(gr, r.a, k)
     ELSE IF IsEdit(r) THEN Apply(gr, StOf(r))
     ELSE IF r.kind = "putgraph" THEN sn
     ELSE gr
+Effect(gr, sn, r) == EffectK(gr, sn, r, NewId(gr.ids))
+FreshId(gr, k) == k >= 0 /\ k \notin gr.ids
 Changes(r) == IsEdit(r) \/ r.kind = "putgraph"
 
 \* handlers as on the pinned tree: ConnectNodes has no cycle check, DeleteNode removes any id (also an unknown
